@@ -1,5 +1,5 @@
 /- C04 driver: condition S-expressions + environment -> spec verdict per rule.
-   Line:  <id> [cext=<t>:<name>:<val>]* [mext=<t>:m_<alias>:<val>]* buf=<hex> [blocks=n1,n2,..] rule=<sexpr>*   (other tokens ignored)
+   Line:  <id> [cext=<t>:<name>:<val>]* [mext=<t>:m_<alias>:<val>]* [dis=<i,j..>] buf=<hex> [blocks=n1,n2,..] rule=<sexpr>*   (other tokens ignored)
    sets: (set;i;j..) expanded indices, or as written (sset;x$a;w$a;t) / (rsset;xr;wr) — resolved by Cond.setDenotes
    rule sexpr: (rule;<name>;(strs;(s;off:len;..);..);<cond>)          separator `;`, no spaces
    Output: <id> rules=default:<name>=<0|1>,... model=default:<name>=<0|1|?>,...
@@ -229,6 +229,7 @@ structure Case where
   buf : Bytes := []
   sizes : Option (List Nat) := none
   rules : List (String × Rule) := []
+  disabled : List Nat := []              -- dis=<i,j,..>: rules (by position) switched off with yr_rule_disable
   bad : Bool := false
 
 def parseCase (toks : List String) : Case :=
@@ -243,6 +244,8 @@ def parseCase (toks : List String) : Case :=
       | none => { c with bad := true }
     else if t.startsWith "blocks=" then
       { c with sizes := some (((t.drop 7).toString.splitOn ",").filterMap String.toNat?) }
+    else if t.startsWith "dis=" then
+      { c with disabled := ((t.drop 4).toString.splitOn ",").filterMap String.toNat? }
     else if t.startsWith "rule=" then
       match parseRule (c.rules.map (·.1)) (t.drop 5).toString with
       | some r => { c with rules := c.rules ++ [r] }
@@ -258,9 +261,9 @@ def handle (line : String) : String :=
     let blocks := match c.sizes with
       | some sz => mkBlocks c.buf sz
       | none => [(0, c.buf)]
-    let vs := evalRules blocks c.buf.length c.ext (c.rules.map (·.2)) []
+    let vs := evalRulesD blocks c.buf.length c.ext c.disabled (c.rules.map (·.2)) []
     let shown := (c.rules.zip vs).map fun (r, v) => s!"default:{r.1}={Driver.bit v}"
-    let ms := YaraModel.CondCompile.modelRules blocks c.buf.length c.ext (c.rules.map (·.2)) []
+    let ms := YaraModel.CondCompile.modelRulesD blocks c.buf.length c.ext c.disabled (c.rules.map (·.2)) []
     let mshown := (c.rules.zip ms).map fun (r, v) =>
       let t := match v with
         | some b => String.singleton (Driver.bit b)
